@@ -42,9 +42,8 @@ def build():
     u.raw("crypto", CRYPTO_SPEC)
     u.verify(J, "impl fmt::Display for JwsSignatureAlgorithm", "crypto", props=["C04", "C15", "C11"], fns={"fmt": display("alg_text", ["C04", "C15", "C11"])})
     u.verify(J, "impl FromStr for JwsSignatureAlgorithm", "crypto", props=["C11", "C14"], fns={"from_str": parse("alg_parse", ["C11", "C14"])})
-    u.verify(K, "impl fmt::Display for KeyType", "crypto", props=["C14"], fns={"fmt": display("kt_text", ["C14"])})
-    u.verify(K, "impl FromStr for KeyType", "crypto", props=["C14"], fns={"from_str": parse("kt_parse", ["C14"], extra=[
-        ("T-STR", r"\.replace\('(?P<c>.)', (?P<t>\"[^\"]*\")\)", lambda m: f".replace_char('{m.group('c')}', {m.group('t')})", 1)])})
+    u.verify(K, "impl fmt::Display for KeyType", "crypto", props=["C14", "C16", "C15"], fns={"fmt": display("kt_text", ["C14", "C16", "C15"])})
+    u.verify(K, "impl FromStr for KeyType", "crypto", props=["C14", "C16", "C15", "C02"], fns={"from_str": parse("kt_parse", ["C14", "C16", "C15", "C02"])})
     u.raw("crypto", CRYPTO_LEMMAS)
     u.module("acme_proto", "use crate::vfmt as fmt;\nuse crate::vfmt::Error;")
     u.take(AP, "Challenge", "acme_proto", keep_derives=("Clone", "Copy", "PartialEq"))
@@ -107,7 +106,14 @@ pub mod vfmt {
         pub fn as_str(&self) -> (r: &str) ensures r@ == self.v@ { unimplemented!() }
         #[verifier::external_body]
         pub fn replace_char(&self, c: char, t: &str) -> (r: LString) ensures r.v@ == replaced(self.v@, c, t@) { unimplemented!() }
+        // str::replace with a set of characters / a string pattern: other functions of the text (uninterpreted here)
+        #[verifier::external_body]
+        pub fn replace_chars(&self, set: &[char], t: &str) -> (r: LString) ensures r.v@ == replaced_set(self.v@, set@, t@) { unimplemented!() }
+        #[verifier::external_body]
+        pub fn replace_str(&self, p: &str, t: &str) -> (r: LString) ensures r.v@ == replaced_str(self.v@, p@, t@) { unimplemented!() }
     }
+    pub uninterp spec fn replaced_set(s: Seq<char>, set: Seq<char>, t: Seq<char>) -> Seq<char>;
+    pub uninterp spec fn replaced_str(s: Seq<char>, p: Seq<char>, t: Seq<char>) -> Seq<char>;
     }
 }
 """
